@@ -313,6 +313,55 @@ def gen_gr(r, limits):
     return "(case (srcs %s) (attrs %s) (ops %s))" % (" ".join(srcs), " ".join(attrs), " ".join(ops))
 
 
+def gen_purge_matrix(r):
+    """every purge (drop, drop_stale, drop_llgr_stale, drop_no_llgr) x (purged peer's path usable | filtered |
+    next-hop-invalid) x (another peer's path present | absent | itself unusable), then brand-new prefixes: a purge that
+    is silent must neither free nor keep a destination id wrongly."""
+    fam = r.pick(["v4", "v4", "ev"])
+    kind = r.pick(["drop", "dstale", "dllgr", "dnollgr"])
+    pa = r.pick(["usable", "filtered", "nhinv"])
+    pb = r.pick(["present", "present", "absent", "unusable"])
+    srcs = "(s 1 1 ebgp -) (s 2 2 %s -) (s 3 3 ebgp -)" % r.pick(["ebgp", "ibgp", "rs"])
+    comm = "xffff0007" if kind == "dnollgr" else r.pick(["-", "x00010002"])
+    attrs = "(a 100 0 - - - %s -) (a %s 0 - - - - -) (a 90 0 - - - - -)" % (comm, r.pick(["100", "110", "90"]))
+    mk = lambda k: "(%s %d)" % ("m" if fam == "ev" else "v", k)
+    ops = []
+    # some earlier prefixes so that the interesting destination does not have id 0
+    for k in range(1, 1 + r.below(3)):
+        ops.append("(ins 2 %s %s 0 2 2 f f)" % (fam, mk(k)))
+    P = mk(10)
+    def path_a():
+        ops.append("(ins 0 %s %s %d %s 0 %s %s)" % (fam, P, r.pick([0, 1]), r.pick(["1", "3"]),
+                                                    "t" if pa == "filtered" else "f", "t" if pa == "nhinv" else "f"))
+    def path_b():
+        if pb != "absent":
+            ops.append("(ins 1 %s %s 0 2 1 %s f)" % (fam, P, "t" if pb == "unusable" else "f"))
+    if r.chance(1, 2):
+        path_a(); path_b()
+    else:
+        path_b(); path_a()
+    if r.chance(1, 4):
+        ops.append("(nhv 1 f)")
+    if kind == "dstale":
+        ops.append("(restale 1 %s)" % fam)
+    elif kind == "dllgr":
+        if r.chance(1, 2):
+            ops.append("(restale 1 %s)" % fam)
+        ops.append("(restale-llgr 1 %s)" % fam)
+    elif kind == "dnollgr" and r.chance(2, 3):
+        ops.append("(restale-llgr 1 %s)" % fam)
+    ops.append("(drop 1 %s)" % fam if kind == "drop" else "(%s 1 %s -)" % (kind, fam))
+    # brand-new prefixes: they must get identifiers no live destination holds
+    for k in range(20, 21 + r.below(3)):
+        ops.append("(ins %d %s %s 0 2 2 f f)" % (r.pick([1, 2]), fam, mk(k)))
+    if r.chance(1, 2):
+        ops.append("(nhv 1 t)")
+    if r.chance(1, 2):
+        ops.append("(rm 1 %s %s 0)" % (fam, P))
+        ops.append("(ins 2 %s %s 0 2 2 f f)" % (fam, mk(30)))
+    return "(case (srcs %s) (attrs %s) (ops %s))" % (srcs, attrs, " ".join(ops))
+
+
 def gen_perms(r):
     """all arrival orders of one 5-path set (thorough tier)"""
     fam = r.pick(["v4", "ev"])
@@ -350,9 +399,9 @@ def mutate(r, line):
 def gen(seed, n, tier, focus):
     """focus: 'C02' | 'C06' | 'C15' shifts the stream weights."""
     r = Rng(seed * 1000003 + {"C02": 2, "C06": 6, "C15": 15}[focus])
-    w = {"C02": [("ranking", 20), ("history", 8), ("limits", 2), ("deferral", 2), ("malformed", 2), ("gr", 4), ("alloc", 1)],
-         "C06": [("ranking", 6), ("history", 16), ("limits", 4), ("deferral", 8), ("malformed", 2), ("gr", 6), ("alloc", 2)],
-         "C15": [("ranking", 4), ("history", 12), ("limits", 18), ("deferral", 2), ("malformed", 2), ("gr", 10), ("alloc", 1)]}[focus]
+    w = {"C02": [("ranking", 20), ("history", 8), ("limits", 2), ("deferral", 2), ("malformed", 2), ("gr", 4), ("alloc", 1), ("pmatrix", 3)],
+         "C06": [("ranking", 6), ("history", 16), ("limits", 4), ("deferral", 8), ("malformed", 2), ("gr", 6), ("alloc", 2), ("pmatrix", 6)],
+         "C15": [("ranking", 4), ("history", 12), ("limits", 18), ("deferral", 2), ("malformed", 2), ("gr", 10), ("alloc", 1), ("pmatrix", 4)]}[focus]
     out = []
     nalloc = 0
     while len(out) < n:
@@ -368,6 +417,8 @@ def gen(seed, n, tier, focus):
             out.append(gen_history(r, deferral=True))
         elif k == "gr":
             out.append(gen_gr(r, limits=r.chance(2, 3)))
+        elif k == "pmatrix":
+            out.append(gen_purge_matrix(r))
         elif k == "alloc":
             # big cases (130 steps x 130 destinations per dump): a fixed number per run
             if nalloc < 24:
